@@ -195,18 +195,20 @@ class StartWorkflowHandler(StabilizeHandler[StartWorkflow]):
                     )
                 )
 
-        # Record events if event recorder is configured
-        if self.event_recorder:
-            self.set_event_context(execution.id)
-            self.event_recorder.record_workflow_created(
-                execution,
-                source_handler="StartWorkflowHandler",
-            )
-            self.event_recorder.record_workflow_started(
-                execution,
-                initial_stage_ids=[s.id for s in initial_stages],
-                source_handler="StartWorkflowHandler",
-            )
+            # Recorded inside the transaction (same commit as the StartStage
+            # messages): events of the stages started by other workers can
+            # never precede workflow.created / workflow.started in the log.
+            if self.event_recorder:
+                self.set_event_context(execution.id)
+                self.event_recorder.record_workflow_created(
+                    execution,
+                    source_handler="StartWorkflowHandler",
+                )
+                self.event_recorder.record_workflow_started(
+                    execution,
+                    initial_stage_ids=[s.id for s in initial_stages],
+                    source_handler="StartWorkflowHandler",
+                )
 
         # Audit log
         audit(
